@@ -19,7 +19,7 @@ GEN = "generated-input search (rapid random+shrinking, complete small-domain gri
 META = {
     "C01": dict(
         text="Differential testing of Rank64/Rank128/IndexRank64/IndexRank128 against a bit-by-bit running count on generated bitmaps (all styles and parities, up to 70k words in thorough) at every position, plus a complete enumeration of all bitmaps of <=4 (thorough <=5) words over a 12-word palette. Establishes agreement on everything generated, not absence of defects outside it.",
-        note="Trusted: the naive prefix-count oracle in c01, the Go toolchain, rapid. Bitmaps beyond 70 001 words / ranks beyond int32 are not explored.",
+        note="Trusted: the naive prefix-count oracle in c01, the Go toolchain, rapid. Random bitmaps stop at 70 001 words; beyond that only the maximum bitmap (exactly 2^25 words = 2^31 bits, three fixed sparse descriptions) is examined. Bitmaps beyond 2^31 bits (positions outside int32) are not explored.",
         technique="property-based differential testing vs naive bit count + exhaustive small grid + coverage-guided fuzzing",
         design_ref="DESIGN.md 4/C01"),
     "C02": dict(
@@ -34,7 +34,7 @@ META = {
         design_ref="DESIGN.md 4/C03"),
     "C04": dict(
         text="AllPaths compared for exact slice equality with an enumerate-filter-sort oracle over generated masks (height 0..30) and (from,to) pairs on and off real paths, exhaustively for all masks of height <= 5 (thorough <= 7) x all (from,to) drawn from every path and every path+-1; Decode compared with a pre-order walk using its own index on bitmaps of every shape (short, long, garbage beyond bitmapSize), exhaustively for height <= 3, plus the encode-through-PathToIndex round trip.",
-        note="Trusted: oracle enumeration in c04 and model.Tree; ranges are generated with a bounded scanned span (the function is linear in it).",
+        note="Trusted: oracle enumeration in c04 and model.Tree; ranges are generated with a bounded scanned span (the function is linear in it). Decode also receives the head of a 2^25-word array.",
         technique="property-based differential testing (exact sequence equality) + exhaustive small grid + round trip + coverage-guided fuzzing",
         design_ref="DESIGN.md 4/C04"),
     "C05": dict(
@@ -74,22 +74,22 @@ META = {
         design_ref="DESIGN.md 4/C11"),
     "C12": dict(
         text="Of/ToArray/Get/Get1/SafeGet/SafeGet1/OfMany/Builder compared with a set-of-bit-positions model and the word-count formula: generated ascending lists with boundary positions and all classes of n, arbitrary bitmaps with probes inside and far outside, OfMany on segments cut from one ascending list (positions >= size occur), and Builder histories (Extend/Set, pre-sized builders) with the model compared after every step; complete grid for Of over all subsets of 8 boundary positions x 13 values of n.",
-        note="Trusted: set model, toolchain, rapid. OfMany inputs keep the concatenated list ascending (Of's documented input); the exact word count of Builder.Words beyond 'enough' is not asserted.",
+        note="Trusted: set model, toolchain, rapid. OfMany inputs keep the concatenated list ascending (Of's documented input); the exact word count of Builder.Words beyond 'enough' is not asserted. The maximum bitmap (exactly 2^25 words = 2^31 bits, the largest one int32 positions address; fixed sparse descriptions, sparse oracle) is part of every run (Of/OfMany with position or size 2^31-1, Get family; ToArray of it only in the thorough tier: the scan takes seconds).",
         technique="property-based differential + stateful model-based testing vs set-of-bits model + small grid + coverage-guided fuzzing",
         design_ref="DESIGN.md 4/C12"),
     "C13": dict(
         text="NextOne/PrevOne compared with a naive scan on generated bitmaps with runs of zero words and boundary bits x 64 ranges each (inside a word, across words, on boundaries, empty), and exhaustively on all 216 three-word bitmaps over a 6-word palette x ALL (i,end) (about 4 M ranges each way), which is exactly the word-stepping loop the suite never observes.",
-        note="Trusted: naive scan, toolchain, rapid. Preconditions exactly as stated (i inside the bitmap for NextOne, end >= 1 for PrevOne, i <= end <= 64*len).",
+        note="Trusted: naive scan, toolchain, rapid. Preconditions exactly as stated (i inside the bitmap for NextOne, end >= 1 for PrevOne, i <= end <= 64*len). The maximum bitmap (exactly 2^25 words = 2^31 bits, the largest one int32 positions address; fixed sparse descriptions, sparse oracle) is part of every run (ranges ending at 2^31-1, scans over 2^24 empty words and off the end).",
         technique="property-based differential testing vs naive scan + exhaustive 3-word grid over all ranges + coverage-guided fuzzing",
         design_ref="DESIGN.md 4/C13"),
     "C14": dict(
         text="Join checked bit by bit (length, every bit, Getw at every index, values with bits above the width), Getw alone on arbitrary bitmaps, Slice checked for length ceil((to-from)/64), every bit and an unchanged input, on generated inputs for all seven widths and on a grid (Slice: 12 bitmaps x all (from,to)); found and fixed the 64x over-allocation of Slice.",
-        note="Trusted: per-bit definitions, toolchain, rapid. Widths from the documented set only.",
+        note="Trusted: per-bit definitions, toolchain, rapid. Widths from the documented set only. The maximum bitmap (exactly 2^25 words = 2^31 bits, the largest one int32 positions address; fixed sparse descriptions, sparse oracle) is part of every run (Slice of short ranges at the top, Getw at the last indexes; the whole-bitmap Slice only in the thorough tier).",
         technique="property-based differential testing vs per-bit definition + grid over all ranges + coverage-guided fuzzing",
         design_ref="DESIGN.md 4/C14"),
     "C15": dict(
         text="Stateful model-based testing: histories of Set/Compact (with macro steps that fill words in any order and cross the 1024-word reclaim threshold) generated state-dependently from a model, from offsets up to 2^40; after every step the Offset invariants, the first-word invariant and Get/Get1 over the whole stored window (plus 130 bits below Offset) are compared with the model, and Compact must change no Get result.",
-        note="Trusted: the o + set-of-indexes model, toolchain, rapid. Positions at or beyond the end of the stored words are not probed (outside the statement).",
+        note="Trusted: the o + set-of-indexes model, toolchain, rapid. Positions at or beyond the end of the stored words are not probed (outside the statement). One fixed history grows the stored tail beyond 2^31 bits (thorough: 2^32); longer tails are not explored.",
         technique="stateful model-based property testing (generated operation histories, invariants after every step)",
         design_ref="DESIGN.md 4/C15"),
     "C16": dict(
